@@ -415,6 +415,7 @@ func C20(c *vlib.Ctx) {
 	c20Confinement(c, root, &row)
 	c20PathSpellings(c, root, &row)
 	c20NameSpellings(c, root, &row)
+	c20ActorShapes(c, root, &row)
 }
 
 // c20CrossCheckSpec compares the transcribed table with the flag headings of spec.md.
@@ -446,6 +447,79 @@ func c20CrossCheckSpec(c *vlib.Ctx) {
 		}
 	}
 	c.Set("spec_md_tools_cross_checked", checked)
+}
+
+// c20ActorShapes: a mismatching actor crossed with every optional argument
+// that changes how a mutating tool runs (mode, reload_timeout, preview_only,
+// limit, state): whatever else the call asks for, it must be refused without
+// effect and leave exactly one audit record that does not say "success".
+func c20ActorShapes(c *vlib.Ctx, root string, row *int) {
+	extras := map[string][]map[string]any{
+		"management_endpoint_upsert": {{}, {"mode": "preview_only"}, {"mode": "write_only"}, {"mode": "write_and_reload"}, {"mode": "write_and_reload", "reload_timeout": "100ms"}, {"mode": "write_and_reload", "reload_timeout": "bogus"}, {"reload_timeout": "100ms"}},
+		"management_endpoint_delete": {{}, {"mode": "preview_only"}, {"mode": "write_only"}, {"mode": "write_and_reload"}, {"mode": "write_and_reload", "reload_timeout": "100ms"}, {"reload_timeout": "100ms"}},
+		"messages_cancel_by_filter":  {{}, {"preview_only": true}, {"limit": 1000}, {"state": "leased"}},
+		"messages_requeue_by_filter": {{}, {"preview_only": true}, {"limit": 1000}},
+		"messages_resume_by_filter":  {{}, {"preview_only": true}, {"limit": 1000}},
+		"messages_publish":           {{}, {"request_id": "r-1"}},
+	}
+	var names []string
+	for n, spec := range c20Tools {
+		if spec.Actor {
+			names = append(names, n)
+		}
+	}
+	sort.Strings(names)
+	for _, tool := range names {
+		shapes := extras[tool]
+		if len(shapes) == 0 {
+			shapes = []map[string]any{{}}
+		}
+		for si, extra := range shapes {
+			for _, actor := range []string{"mallory", "alice2", "alic"} {
+				*row++
+				f, err := c20NewFixture(root, *row)
+				if err != nil {
+					c.Inconclusive(err.Error())
+					return
+				}
+				args := c20Args(tool, f, actor)
+				for k, v := range extra {
+					args[k] = v
+				}
+				before := c20Snapshot(f.Dir)
+				ro, recs, err := c20Call(f, "admin", true, true, "alice", "tools/call", map[string]any{"name": tool, "arguments": args})
+				after := c20Snapshot(f.Dir)
+				if err != nil {
+					c.Inconclusive(fmt.Sprintf("C20 actor shape %s: %v", tool, err))
+					_ = os.RemoveAll(f.Dir)
+					continue
+				}
+				text := ""
+				if len(ro.Result.Content) > 0 {
+					text = ro.Result.Content[0].Text
+				}
+				c.Count("evaluations", 1)
+				c.Count("actor_shape_calls", 1)
+				c.Distinct("nontrivial", fmt.Sprintf("actor_shape:%s:%d:%s", tool, si, actor))
+				wit := map[string]any{"tool": tool, "arguments": args, "principal": "alice", "is_error": ro.Result.IsError, "text": text[:minInt(300, len(text))], "audit": recs, "fs_diff": fsDiff(before, after)}
+				sig := vlib.Signature{"tool": tool, "shape": fmt.Sprint(si)}
+				if !(ro.Error != nil || ro.Result.IsError) {
+					sig["class"] = "actor_mismatch_accepted"
+					c.Violation(sig, fmt.Sprintf("%s with actor %q (principal alice) and %v ran: %s", tool, actor, extra, text[:minInt(160, len(text))]), wit)
+				}
+				if d := fsDiff(before, after); len(d) > 0 {
+					s2 := vlib.Signature{"class": "refused_call_had_effect", "tool": tool, "shape": fmt.Sprint(si)}
+					c.Violation(s2, fmt.Sprintf("%s with actor %q (principal alice) and %v changed files: %v", tool, actor, extra, d), wit)
+				}
+				if len(recs) != 1 {
+					c.Violation(vlib.Signature{"class": "audit_record_count", "tool": tool, "case": "actor_shape"}, fmt.Sprintf("%d audit records for one mutating call", len(recs)), wit)
+				} else if recs[0]["result"] == "success" {
+					c.Violation(vlib.Signature{"class": "audit_record_wrong", "tool": tool, "case": "actor_shape"}, fmt.Sprintf("a call with a mismatching actor is audited as success: %v", recs[0]), wit)
+				}
+				_ = os.RemoveAll(f.Dir)
+			}
+		}
+	}
 }
 
 // c20NameSpellings: tool names that differ from a gated tool's name only by
